@@ -132,7 +132,13 @@ def execute(ctx, rng, variant, sel, cfg, alg, tag, star=False, expect_quantized=
   name = f'lattice:{tag}'
   recipes.CFGS[name] = (alg, cfg)
   rule = ('.*', '*' if star else sel, name)
-  run = common.pipeline(spec, datasets, rules=[rule])
+  warm = None
+  if star and rng.random() < 0.3:
+    # the same Quantizer resolved ANOTHER '*' config under the same regex before: a '*' update resets that regex's rules, so
+    # the history must not show
+    warm = [('.*', '*', str(rng.choice(['drq8_cw', 'wo8a_cw', 'srq8a_cw', 'fp16', 'drq4_cw', 'srq16_tw'])))]
+    ctx.count('star_executions_on_a_warmed_quantizer')
+  run = common.pipeline(spec, datasets, rules=[rule], warm_rules=warm)
   opn = [k for k, v in models.SINGLE_OPS.items() if variant in v][0]
   mode = mode_of(cfg, alg)
   feats = {'variant': variant, 'op': opn, 'mode': mode, 'star': star, 'selector': sel}
